@@ -28,5 +28,5 @@ Proof.
   assert (A3 : targets_properb c = true).
   { apply forallb_seq_intro. intros ti _. apply forallb_forall. intros g _. apply Hprop. }
   rewrite A1, A2, A3. cbn [andb].
-  destruct (Hcpl 0 Hroot) as (k & Hk). unfold root_plainb, root_singleb. rewrite Hk. cbn [forallb]. rewrite (Hprop k). reflexivity.
+  destruct (Hcpl 0 Hroot) as (k & Hk). unfold root_plainb. rewrite Hk. cbn [forallb]. rewrite (Hprop k). reflexivity.
 Qed.
